@@ -9,7 +9,7 @@ import os
 from ..core import AnalysisError, VERIF
 from ..interp import Interpreter
 from ..terms import (Const, Sym, Op, Ite, Ref, Lin, TRUE, is_int, is_const, add, sub, mul, walk, ite,
-                     compare, and_, not_, binop)
+                     compare, and_, not_, binop, subst)
 from .. import pelx
 from ..pelx import (F, IntF, DATA, as_slice, as_int_field, fields_of, field_str, equivalent, env_str,
                     hex_render, dec_render, text_render, strips_nul, table_lookup, flat_parts,
@@ -81,6 +81,13 @@ SPEC = {
 def run_section(prog, tag, spec, config_attrs=None):
     """interpret the decoder of one section the way parsePEL drives it"""
     I = Interpreter(prog)
+    # (the component-id names are loaded on first use: one call up front, so that the decoder's call and the reference call
+    # of check_compid both see the loaded state)
+    if prog.has_func("pel.peltool.comp_id.getDisplayCompID"):
+        try:
+            I.call("pel.peltool.comp_id.getDisplayCompID", [Sym("warm.comp", "int"), Sym("warm.creator")])
+        except AnalysisError:
+            pass
     st = pelx.new_stream(I)
     out = I.x_collections_OrderedDict([], {}, None)
     if spec.get("entry") == "generatePH":
@@ -118,7 +125,17 @@ def check_compid(I, rep, rule, where, key, val, spec):
     creator = CREATOR if cre == "creator" else Op("m:decode", F(cre[1], cre[2]))
     I2 = I
     expected = I2.call("pel.peltool.comp_id.getDisplayCompID", [comp, creator])
-    if val == expected:
+
+    def canon(t):
+        """the same function interpreted twice names its try statements' exception flags differently"""
+        import re as _re
+        m, k = {}, 0
+        for x in walk(t):
+            if isinstance(x, Sym) and x.kind == "exc" and x not in m:
+                m[x] = Sym("exc%d:%s" % (k, _re.sub(r"#\d+$", "", x.name)), "exc")
+                k += 1
+        return subst(t, m) if m else t
+    if val == expected or canon(val) == canon(expected):
         rep.ok(rule, "%s[%s] = getDisplayCompID(%s, %s)" % (where, key, field_str((Const(off), Const(off + w))),
                                                             "creator" if cre == "creator" else "byte@%d" % cre[1]))
         return
